@@ -16,7 +16,11 @@ not modelled.  Mathlib-free, finite, everything decidable.
 
 Column counts are symbolic (`Cols`): they depend on the number of outputs / classes of the *data*, not on its
 representation; `Cols.eval` interprets them.
+The dtypes the containers are converted to, the widening of integer targets and the vector→column rule are data of the
+regenerated `Xrfmv.Gen.Coerce` (read off `xRFM.fit` / `predict` / `predict_proba` on every run).
 -/
+import Xrfmv.Gen.Coerce
+
 namespace Xrfmv.Coerce
 
 inductive Container | ndarray | tensor
@@ -73,6 +77,21 @@ structure Canon where
   shape : TShape
   deriving DecidableEq, Repr
 
+/-- torch dtype names as they appear in the source (`torch.float32`, ...). An unknown name maps to `f16`, which is no
+canonical dtype of any documented representation, so the table theorems fail if the source starts using another name. -/
+def DType.ofName : String → DType
+  | "float32" | "float" => .f32
+  | "float64" | "double" => .f64
+  | "int64" | "long" => .i64
+  | "int32" | "int" => .i32
+  | _ => .f16
+
+/-- dtype of features given as arrays, of widened integer targets, of float targets — from the regenerated facts. -/
+def genFeatureDType : DType := DType.ofName Xrfmv.Gen.Coerce.featuresArrayDType
+def genFloatTargetDType : DType := DType.ofName Xrfmv.Gen.Coerce.floatTargetsCastTo
+/-- `(n,)` targets become `(n,1)` iff the source still unsqueezes both training and validation targets. -/
+def genVecToCol : Bool := Xrfmv.Gen.Coerce.vectorTargetsBecomeColumns && Xrfmv.Gen.Coerce.validationTargetsTreatedLikeTraining
+
 def DType.isFloat : DType → Bool
   | .f16 | .f32 | .f64 => true
   | _ => false
@@ -89,8 +108,8 @@ def DType.torchNative : DType → Bool
 /-- `xRFM.fit` / `predict` / `predict_proba` / `get_grads`: what the tree builder and the leaves see. -/
 def coerceX (r : Rep) : Canon :=
   let dt := match r.container with
-    | .ndarray => DType.f32                 -- torch.tensor(X, dtype=torch.float32)
-    | .tensor => r.dtype                    -- X.to(device): dtype kept
+    | .ndarray => genFeatureDType           -- torch.tensor(X, dtype=torch.<Gen.Coerce.featuresArrayDType>)
+    | .tensor => if Xrfmv.Gen.Coerce.featureTensorsKeepDType then r.dtype else genFeatureDType   -- X.to(device): dtype kept
   -- the shape is never touched: a 1-D array stays 1-D (and `X.shape[1]` then raises); `(n,1)` is `(n,d)` with d = 1
   { dtype := dt, shape := match r.shape with | .vec => .vecN | .col => .matN .feats | .mat => .matN .feats }
 
@@ -121,12 +140,15 @@ def encodedCols (l : Logical) (m : Mode) : Cols :=
 `none` = the call raises before reaching a leaf (unsigned 16/32/64-bit labels). -/
 def coerceY (l : Logical) (m : Mode) (r : Rep) : Option Canon :=
   if isClass r then
-    -- integer labels are converted to int64 on entry (every integer width, signed or unsigned);
+    -- integer labels are converted to int64 on entry (every integer width, signed or unsigned) - as long as the
+    -- regenerated fact says so: without the widening torch has no `max` / `cat` for the unsigned 16/32/64-bit dtypes;
     -- labels_to_numerical: reshape(-1) first, so (n,) and (n,1) agree; an (n,k) label matrix would be flattened
-    some { dtype := .f32, shape := .matN (encodedCols l m) }
+    if DType.ofName Xrfmv.Gen.Coerce.intTargetsWidenedTo != .i64 && !r.dtype.torchNative then none
+    else some { dtype := .f32, shape := .matN (encodedCols l m) }
   else
     -- y.float(); unsqueeze(-1) when 1-D
-    some { dtype := .f32, shape := match r.shape with | .vec => .matN .one | .col => .matN .one | .mat => .matN .outs }
+    some { dtype := genFloatTargetDType,
+           shape := match r.shape with | .vec => (if genVecToCol then .matN .one else .vecN) | .col => .matN .one | .mat => .matN .outs }
 
 /-- The canonical target tensor of each kind of data. -/
 def canonY (l : Logical) (m : Mode) : Canon :=
@@ -155,7 +177,8 @@ training targets were reshaped (a `(n,)` validation vector then failed in the fi
 floats were passed through to the solver (which raised on the dtype mismatch).  `none`: the branch is not taken. -/
 def coerceYFloatClass (r : Rep) : Option Canon :=
   if r.dtype.isFloat then
-    some { dtype := .f32, shape := match r.shape with | .vec => .matN .one | .col => .matN .one | .mat => .matN .classes }
+    some { dtype := genFloatTargetDType,
+           shape := match r.shape with | .vec => (if genVecToCol then .matN .one else .vecN) | .col => .matN .one | .mat => .matN .classes }
   else none
 
 /-- Canonical pre-encoded targets: one `{0,1}` (or `{-1,1}`) column for binary, `K` one-hot columns for multiclass. -/
